@@ -460,7 +460,21 @@ package parser
 //@ pure toASTPosition
 //@ trusted isValidCommodityText
 
-//@ trusted parseTags
+// ---- C08: the ranges of the tags inside a comment ----
+// A tag's range lies on the comment's line, starts and ends at byte offsets inside the comment text (text starts one
+// byte after basePos, the ';'), its columns count the UTF-16 units of the comment text before those offsets, and the tags
+// follow each other without overlap (each one is searched after the end of the previous one).
+//@ pred TagAt(text, bp, t) := t.Range.Start.Line == bp.Line && t.Range.End.Line == bp.Line && bp.Offset + 1 <= t.Range.Start.Offset && t.Range.Start.Offset < t.Range.End.Offset && t.Range.End.Offset <= bp.Offset + 1 + len(text) && t.Range.Start.Column == bp.Column + 1 + u16(substr(text, 0, t.Range.Start.Offset - bp.Offset - 1), t.Range.Start.Offset - bp.Offset - 1) && t.Range.End.Column == bp.Column + 1 + u16(substr(text, 0, t.Range.End.Offset - bp.Offset - 1), t.Range.End.Offset - bp.Offset - 1)
+//@ trusted isValidTagName
+//@   effects none
+//@ func parseTags
+//@   props C08 C06
+//@   ensures [C08:tag_position] forall k int :: {result[k]} 0 <= k && k < len(result) ==> TagAt(text, basePos, result[k])
+//@   ensures [C08:tags_in_order] forall k int :: {result[k]} 0 < k && k < len(result) ==> result[k - 1].Range.End.Offset <= result[k].Range.Start.Offset
+//@   loop 1 invariant 0 - 1 <= rangeindex && 0 <= searchStart && searchStart <= len(text) && (fresh(tags) || len(tags) == 0)
+//@   loop 1 invariant forall k int :: {tags[k]} 0 <= k && k < len(tags) ==> TagAt(text, basePos, tags[k]) && tags[k].Range.End.Offset <= basePos.Offset + 1 + searchStart
+//@   loop 1 invariant forall k int :: {tags[k]} 0 < k && k < len(tags) ==> tags[k - 1].Range.End.Offset <= tags[k].Range.Start.Offset
+//@   loop 1 decreases len(parts) - rangeindex
 //@ trusted normalizeNumber
 
 //@ func (*Parser).errorAt
